@@ -56,6 +56,12 @@ config_canvas_free(struct config *cf)
 static void
 config_canvas_after_parse(struct config *cf)
 {
+	/*
+	 * config_steps_add_script() operates on a copy of the vector pointer,
+	 * make room up front so that it never has to reallocate.
+	 */
+	if (VECTOR_RESERVE(cf->canvas.steps, 1))
+		err(1, NULL);
 	config_steps_add_script(cf->canvas.steps, "/dev/null", "end");
 }
 
